@@ -27,7 +27,8 @@ Ev == Traces[t][l]
 TInit == /\ t \in 1 .. NT /\ l = 2
          /\ LET e == Traces[t][1] IN
               /\ e.ev = "new"
-              /\ InitWith(e.kw, IF e.s = NoneS THEN NoTask ELSE StartTask(e.s, NoKw, NoneS))
+              /\ InitWith(e.kw, IF e.s = NoneS THEN NoTask ELSE StartTask(e.s, NoKw, NoneS), e.c,
+                          IF e.hook THEN "given" ELSE "none")
 
 Matches(st) == /\ st.statefunc = statefunc' /\ st.init = init' /\ st.task = next_task'
                /\ st.cleanup_none = (cleanup' = NoneS) /\ st.reason = cleanup_reason'
